@@ -1,6 +1,7 @@
 #!/bin/bash
 # usage: tools/mk.sh [targets...]   (regenerates coq/Makefile when the file list changed, then make)
-cd /verif && /venv/bin/python -c "
-import sys; sys.path.insert(0,'/verif')
+root=$(cd "$(dirname "$0")/.." && pwd)
+cd $root && /venv/bin/python -c "
+import sys; sys.path.insert(0,'$root')
 from harness import common; common.regen_makefile()"
-cd /verif/coq && timeout ${MK_TIMEOUT:-900} make -j16 "$@" 2>&1 | grep -v "^Warning\|^COQDEP\|^make\[" | tail -${MK_TAIL:-40}
+cd $root/coq && timeout ${MK_TIMEOUT:-900} make -j${MK_JOBS:-16} "$@" 2>&1 | grep -v "^Warning\|^COQDEP\|^make\[" | tail -${MK_TAIL:-40}
